@@ -66,7 +66,7 @@ schema_ok!(c14_nz_i32, NonZeroI32, 8, kani::any());
 schema_ok!(c14_nz_u64, NonZeroU64, 13, kani::any());
 //@ tier=thorough class=core cap=240 bounds="all values"
 schema_ok!(c14_nz_i64, NonZeroI64, 13, kani::any());
-//@ tier=thorough class=core cap=300 bounds="all values"
+//@ tier=quick class=core cap=300 bounds="all values"
 schema_ok!(c14_nz_u128, NonZeroU128, 22, kani::any());
 //@ tier=thorough class=core cap=300 bounds="all values"
 schema_ok!(c14_nz_i128, NonZeroI128, 22, kani::any());
@@ -239,6 +239,19 @@ enum SEnum {
     B(u16),
     C(u8, i32),
     D { x: i64, y: bool },
+    E { only: u8 },
+    F(),
+}
+#[derive(Serialize, Schema)]
+#[cfg_attr(kani, derive(kani::Arbitrary))]
+struct SOne {
+    only: u16,
+}
+#[derive(Serialize, Schema)]
+#[cfg_attr(kani, derive(kani::Arbitrary))]
+struct SRaw {
+    r#type: u8,
+    r#loop: bool,
 }
 #[derive(Serialize, Schema)]
 #[cfg_attr(kani, derive(kani::Arbitrary))]
@@ -254,7 +267,11 @@ schema_ok!(c14_derive_tuple, STup, 6, kani::any());
 schema_ok!(c14_derive_named, SNamed, 8, kani::any());
 //@ tier=thorough class=core cap=600 bounds="derive: all values of SGeneric<i32>"
 schema_ok!(c14_derive_generic, SGeneric<i32>, 8, kani::any());
-//@ tier=quick class=core cap=900 bounds="derive: all values of a 4-form enum"
+//@ tier=quick class=core cap=300 bounds="derive: all values of a struct with exactly one named field"
+schema_ok!(c14_derive_one_field, SOne, 6, kani::any());
+//@ tier=quick class=core cap=300 bounds="derive: all values of a struct whose fields are raw identifiers (r#type, r#loop)" family=raw_ident
+schema_ok!(c14_derive_raw_ident, SRaw, 6, kani::any());
+//@ tier=quick class=core cap=900 bounds="derive: all values of an enum with unit/newtype/tuple/struct/one-field-struct/empty-tuple variants"
 schema_ok!(c14_derive_enum, SEnum, 13, kani::any());
 //@ tier=quick class=core cap=1800 bounds="derive: all values of nested struct (enum, tuple, array, Result, named struct)"
 schema_ok!(c14_derive_nested, SNested, 13, kani::any());
